@@ -819,7 +819,7 @@ M("c16-blur-fed-from-log-requests", ["C16"], S,
                 self._log_requests,
                 self._blur_usage,
                 app_id,''',
-  ["R16.plumb"])
+  ["R16.dom"])
 M("c16-blur-modulo-wrong", ["C16"], S,
   '''        if self._blur_usage:
             started = self._blur_usage * (started // self._blur_usage)
@@ -1169,6 +1169,118 @@ B("b-reply-helper", ALL, W,
         self._reply("closed")''', "see extra")
 
 # two-site mutants (extra edits applied together with the main one)
+
+# ---------------------------------------------------------------- batch-3 rules
+M("c01-replay-first-copy-only", ["C01"], S,
+  '''                              " WHERE `app_id`=? AND `mailbox_id`=?"
+                              " ORDER BY `server_rx` ASC",''',
+  '''                              " WHERE `app_id`=? AND `mailbox_id`=?"
+                              " GROUP BY `side`, `phase`"
+                              " ORDER BY `server_rx` ASC",''',
+  ["R01.key"], "replay collapses repeated (side, phase) adds")
+M("c03-startup-finishes-releases", ["C03", "C07", "C05"], D,
+  '''def create_or_upgrade_channel_db(dbfile):
+    return _get_db(dbfile, "channel", CHANNELDB_TARGET_VERSION)''',
+  '''def create_or_upgrade_channel_db(dbfile):
+    db = _get_db(dbfile, "channel", CHANNELDB_TARGET_VERSION)
+    for row in db.execute("SELECT DISTINCT `nameplates_id` FROM `nameplate_sides`"
+                          " WHERE `claimed`=?", (False,)).fetchall():
+        db.execute("DELETE FROM `nameplate_sides` WHERE `nameplates_id`=?",
+                   (row["nameplates_id"],))
+        db.execute("DELETE FROM `nameplates` WHERE `id`=?", (row["nameplates_id"],))
+    db.commit()
+    return db''',
+  ["R03.startup", "R07.startup", "R05.startup"], "start-up code retires half-released nameplates")
+M("c08-stop-callback-marks-closed", ["C08", "C17"], W,
+  '''            self._mailbox = None
+            self._listening = False
+        self._listening = True''',
+  '''            self._mailbox = None
+            self._listening = False
+            self._did_close = True
+        self._listening = True''',
+  ["R08.resend", "R17.once"], "a connection that never sent close is marked as closed")
+M("c11-release-commit-only-at-end", ["C11", "C09", "C06", "C03"], S,
+  '''                   (False, npid, side))
+        db.commit()
+
+        # now, are there any remaining claims?''',
+  '''                   (False, npid, side))
+
+        # now, are there any remaining claims?''',
+  ["R11.durable", "R09.exit", "R06.durable", "R03.durable"],
+  "the early return of release leaves the flag update uncommitted")
+M("c11-sweep-over-cached-apps", ["C11", "C13"], S,
+  '''        for app_id in sorted(self.get_all_apps()):
+            log.msg(" app prune checking %r" % (app_id,))''',
+  '''        for app_id in sorted(self._apps):
+            log.msg(" app prune checking %r" % (app_id,))''',
+  ["R11.regdep"], "the sweep visits only namespaces cached in memory")
+M("c13-mailbox-insert-or-ignore", ["C13", "C06"], S,
+  '''            self._db.execute("INSERT INTO `mailboxes`"
+                             " (`app_id`, `id`, `for_nameplate`, `updated`)"''',
+  '''            self._db.execute("INSERT OR IGNORE INTO `mailboxes`"
+                             " (`app_id`, `id`, `for_nameplate`, `updated`)"''',
+  ["R13.orphan", "R06.key"], "a mailbox row of another app silently stands in")
+M("c16-round-before-blur", ["C16", "C15"], S,
+  '''        started = times[0]''',
+  '''        started = int(round(times[0]))''',
+  ["R16.dom", "R15.times"], "rounding to the nearest second moves a time across the interval boundary")
+M("c02-reclose-frees-live-mailbox", ["C02", "C13", "C01"], W,
+  '''        self._mailbox.close(self._side, msg.get("mood"), server_rx)
+        self._mailbox = None
+        self.send("closed")''',
+  '''        self._mailbox.close(self._side, msg.get("mood"), server_rx)
+        self._mailbox = None
+        self._app.free_mailbox(mailbox_id)
+        self.send("closed")''',
+  ["R02.unique", "R13.reach", "R01.live"], "the registry drops a Mailbox other connections are subscribed through")
+
+
+# ---------------------------------------------------------------- mutation-campaign rules
+M("c02-connection-counter-adds-zero", ["C02", "C12", "C11"], S,
+  '''        self._connections += 1''',
+  '''        self._connections += 0''',
+  ["R02.unique", "R12.vis", "R11.reg"], "the holder bookkeeping never counts a bound connection")
+M("c15-status-row-accumulates", ["C15"], S,
+  '''        self._usage_db.execute("DELETE FROM `current`")
+''',
+  '''        pass
+''',
+  ["R15.count"], "one status row per sweep instead of the status row")
+M("c15-closed-nameplate-recorded-pruney", ["C15"], S,
+  '''                self._app._summarize_nameplate_and_store(np_side_rows, when,
+                                                         pruned=False)''',
+  '''                self._app._summarize_nameplate_and_store(np_side_rows, when,
+                                                         pruned=True)''',
+  ["R15.pair"], "a nameplate retired by a close is classified as expired")
+M("c08-close-lookup-app-or-id", ["C08", "C15"], S,
+  '''        row = db.execute("SELECT * FROM `mailboxes`"
+                         " WHERE `app_id`=? AND `id`=?",
+                         (self._app_id, self._mailbox_id)).fetchone()
+        if not row:''',
+  '''        row = db.execute("SELECT * FROM `mailboxes`"
+                         " WHERE `app_id`=? OR `id`=?",
+                         (self._app_id, self._mailbox_id)).fetchone()
+        if not row:''',
+  ["R08.lookup", "R15.lookup"], "the row close works on is any mailbox of the app")
+M("c13-sweep-never-scheduled", ["C13"], T,
+  '''    TimerService(EXPIRATION_CHECK_PERIOD, expire).setServiceParent(parent)''',
+  '''    pass''',
+  ["R13.timer"], "no sweep at all")
+M("c15-status-row-never-written", ["C15"], T,
+  '''        server.dump_stats(now, rebooted=rebooted)
+    TimerService''',
+  '''        pass
+    TimerService''',
+  ["R15.count"], "the timer no longer refreshes the status row")
+M("c08-free-mailbox-pops-absent-key", ["C08", "C17"], S,
+  '''        if mailbox_id in self._mailboxes:
+            self._mailboxes.pop(mailbox_id)''',
+  '''        if mailbox_id not in self._mailboxes:
+            self._mailboxes.pop(mailbox_id)''',
+  ["R08.answer", "R17.escape"], "pop of a key that is known to be absent raises KeyError")
+
 EXTRA = {
     "b-old-mailboxes-list": [
         (S, '''            else:
@@ -1269,9 +1381,16 @@ def run_one(prop, m, base_fail, tier="thorough"):
     """-> ('skipped'|'ok'|'MISS'|'FALSE-ALARM'|'error', detail)"""
     import importlib
     from .repo import REPO
-    ov = apply_mutant(REPO, m)
-    if ov is None:
-        return "skipped", "anchor text not in the current tree"
+    if "patch" in m:
+        from . import patchset
+        with open(m["patch"], "r", encoding="utf-8") as f:
+            ov = patchset.apply(REPO, f.read())
+        if ov is None:
+            return "skipped", "the patch does not apply to the current tree"
+    else:
+        ov = apply_mutant(REPO, m)
+        if ov is None:
+            return "skipped", "anchor text not in the current tree"
     mod = importlib.import_module("sa.rules.%s" % prop.lower())
     try:
         model = Model(Repo(overrides=ov))
@@ -1281,11 +1400,22 @@ def run_one(prop, m, base_fail, tier="thorough"):
         if m["kind"] == "fire":
             return "ok", "analysis refuses the mutant (ANALYSIS-ERROR: %s)" % str(e)[:80]
         return "FALSE-ALARM", "ANALYSIS-ERROR on a benign variant: %s" % str(e)[:120]
-    new = failing(ctx) - base_fail
+    # constructs are compared without qualified function names (as the known-
+    # findings matching does): renaming a helper does not make a finding new
+    import re as _re
+
+    def _nofunc(c):
+        return _re.sub(r"[A-Za-z_][\w.<>]*: ", "", c)
+    base_norm = set((r, _nofunc(c)) for (r, c) in base_fail)
+    new = set((r, c) for (r, c) in failing(ctx) if (r, _nofunc(c)) not in base_norm)
     if m["kind"] == "fire":
         want = [r for r in m["fire"] if r.startswith("R%s." % prop[1:]) or
                 (not r[1:3].isdigit())]
         rules = set(r for (r, c) in new)
+        if m["fire"] == ["*"]:
+            if rules:
+                return "ok", "fired %s" % ",".join(sorted(rules))
+            return "MISS", "no new failure of %s" % prop
         if not want:
             return "ok", "no rule of this property expected"
         hit = [r for r in want if r in rules]
@@ -1297,12 +1427,38 @@ def run_one(prop, m, base_fail, tier="thorough"):
     return "ok", "silent"
 
 
+def patch_jobs(prop):
+    """the independently written changes kept under /verif: seeded changes that
+    break `prop` (must be reported) and behaviour-preserving refactorings
+    (every property's check must stay as on the unchanged tree)"""
+    import glob
+    import json
+    V = os.path.dirname(os.path.dirname(os.path.abspath(__file__)))
+    jobs = []
+    for d in sorted(glob.glob(os.path.join(V, "seeded", "*"))):
+        try:
+            with open(os.path.join(d, "meta.json")) as f:
+                meta = json.load(f)
+        except (OSError, ValueError):
+            continue
+        if meta.get("breaks_property") != prop or meta.get("detected_by_target") is False:
+            continue
+        if any("ANALYSIS-ERROR" in x for x in meta.get("detected_by", [])):
+            continue
+        jobs.append({"id": "seeded/" + os.path.basename(d), "kind": "fire", "fire": ["*"],
+                     "props": [prop], "patch": os.path.join(d, "patch.diff")})
+    for f in sorted(glob.glob(os.path.join(V, "benign", "*.diff"))):
+        jobs.append({"id": "benign/" + os.path.basename(f)[:-5], "kind": "silent", "fire": [],
+                     "props": [prop], "patch": f})
+    return jobs
+
+
 def run(prop, ctx):
     """thorough tier: run the corpus entries of this property against the
     current tree; a miss or a false alarm is an analysis error"""
     base_fail = failing(ctx)
     results = []
-    jobs = [m for m in MUTANTS if prop in m["props"]]
+    jobs = [m for m in MUTANTS if prop in m["props"]] + patch_jobs(prop)
     from concurrent.futures import ProcessPoolExecutor
     with ProcessPoolExecutor(max_workers=min(16, max(1, len(jobs)))) as ex:
         futs = [(m, ex.submit(run_one, prop, m, base_fail)) for m in jobs]
